@@ -108,7 +108,7 @@ class C01Monitor(histrun.Monitor):
 
     def identify(self, w, col, body):
         import re
-        return sorted(set(re.findall(rb"vf\d+x\d+", body)))[:4]
+        return sorted(set(re.findall(rb"vf\d+x\d+z", body)))[:4]
 
 
 def run_shard(args):
